@@ -4108,4 +4108,32 @@ theorem C07_planted_inter_ref_family_partial (T A rest : List Tok) (cs : CharSpe
     fun sg i h h1 h2 => g _ (fun s0 => parseInterRef_signed top tcp inner [] s0 sh.hop sh.hcp sh.hin sg i h h1 h2),
     fun x h h1 => g _ (fun s0 => parseInterRef_invalid top tcp inner [] s0 sh.hop sh.hcp sh.hin x h h1)⟩
 
+/-! non-vacuity: `Use @&(x)y{} now` under COMPONENT_MODIFIERS + INTERMEDIATE_PREPARATIONS: the hypotheses hold on the
+    step's tokens (last clause: `inner = [x]`, a word); the real run reports exactly `inter-ref-invalid` at 7..8. -/
+def C07_iToks : List Tok :=
+  [⟨.word, "Use".toList, 0⟩, ⟨.ws, [' '], 3⟩, ⟨.at, ['@'], 4⟩, ⟨.and, ['&'], 5⟩, ⟨.openParen, ['('], 6⟩,
+   ⟨.word, ['x'], 7⟩, ⟨.closeParen, [')'], 8⟩, ⟨.word, ['y'], 9⟩, ⟨.openBrace, ['{'], 10⟩, ⟨.closeBrace, ['}'], 11⟩,
+   ⟨.ws, [' '], 12⟩, ⟨.word, "now".toList, 13⟩]
+theorem C07_iWF : WF C07_iToks :=
+  WF.of_chain (off := 0) (by simp [C07_iToks, Chain, Tok.stop, utf8Len]; decide)
+    (by intro t ht; simp [C07_iToks] at ht
+        rcases ht with rfl | rfl | rfl | rfl | rfl | rfl | rfl | rfl | rfl | rfl | rfl | rfl <;> simp)
+    (by simp [C07_iToks])
+theorem C07_iShape : PlShapeI ⟨Gen.EXT_COMPONENT_MODIFIERS ||| Gen.EXT_INTERMEDIATE_PREPARATIONS⟩ .at ⟨.at, ['@'], 4⟩ []
+    ⟨.and, ['&'], 5⟩ ⟨.openParen, ['('], 6⟩ [⟨.word, ['x'], 7⟩] ⟨.closeParen, [')'], 8⟩ [] [⟨.word, ['y'], 9⟩]
+    ⟨.openBrace, ['{'], 10⟩ [] ⟨.closeBrace, ['}'], 11⟩ [⟨.ws, [' '], 12⟩, ⟨.word, "now".toList, 13⟩] :=
+  ⟨rfl, by decide, by decide, (by intro t h; cases h), rfl, rfl, (by intro t h; simp at h; subst h; decide), rfl,
+   (by intro t h; cases h), (by intro t h; simp at h; subst h; decide), (by intro t h; simp at h; subst h; decide),
+   rfl, (by intro t h; cases h), rfl, (by intro t h; simp at h; subst h; decide)⟩
+example := (C07_planted_inter_ref_family_partial (α := Rat) C07_iToks [⟨.word, "Use".toList, 0⟩, ⟨.ws, [' '], 3⟩]
+    [⟨.ws, [' '], 12⟩, ⟨.word, "now".toList, 13⟩] toyCharSpec
+    ⟨Gen.EXT_COMPONENT_MODIFIERS ||| Gen.EXT_INTERMEDIATE_PREPARATIONS⟩ C07_iWF ⟨.at, ['@'], 4⟩ ⟨.and, ['&'], 5⟩
+    ⟨.openParen, ['('], 6⟩ [⟨.word, ['x'], 7⟩] ⟨.closeParen, [')'], 8⟩ [⟨.word, ['y'], 9⟩] ⟨.openBrace, ['{'], 10⟩ []
+    ⟨.closeBrace, ['}'], 11⟩ rfl C07_iShape (by intro t h; cases h) (Or.inl (by decide)) (by decide)).2.2.2.2.2
+    ⟨.word, ['x'], 7⟩ (by decide) (by decide)
+example : (parseRecipe (α := Rat)
+      { C07_coreEnv with ext := ⟨Gen.EXT_COMPONENT_MODIFIERS ||| Gen.EXT_INTERMEDIATE_PREPARATIONS⟩ }
+      "Use @&(x)y{} now\n".toList).diags.toList =
+    [⟨.error, .parse, "inter-ref-invalid", [⟨7, 8⟩]⟩] := by decide +kernel
+
 end Cook
